@@ -687,6 +687,21 @@ class Interp:
             return
         raise Unsupported('attribute store on %r' % (obj,))
 
+    def head_split(self, term, kind):
+        """term == [h] ++ T for fresh h, T (the caller has established that term is non-empty); cached per term"""
+        g = self.st.ghost
+        for (t0, h, T) in g.get('_head_splits', []):
+            if t0.eq(term):
+                return h, T
+        if z3.is_app_of(term, z3.Z3_OP_SEQ_CONCAT) and z3.is_app_of(term.arg(0), z3.Z3_OP_SEQ_UNIT):
+            rest = [term.arg(j) for j in range(1, term.num_args())]
+            return term.arg(0).arg(0), (rest[0] if len(rest) == 1 else z3.Concat(*rest))
+        h = z3.Const(sym.fresh_name('hd'), kind.sort)
+        T = z3.Const(sym.fresh_name('tl'), term.sort())
+        self.st.assume(term == z3.Concat(z3.Unit(h), T))
+        g['_head_splits'] = g.get('_head_splits', []) + [(term, h, T)]
+        return h, T
+
     def set_item(self, base, key, v):
         if isinstance(base, VObj) and self.st.heap[base.loc].cls == '__strdict__':
             if not isinstance(key, VStr):
@@ -700,10 +715,11 @@ class Interp:
             i = self.num(key)
             n = z3.Length(c.term)
             si = z3.simplify(i)
-            if z3.is_int_value(si) and si.as_long() == 0 and z3.is_app_of(c.term, z3.Z3_OP_SEQ_CONCAT) \
-                    and z3.is_app_of(c.term.arg(0), z3.Z3_OP_SEQ_UNIT):
-                rest = [c.term.arg(j) for j in range(1, c.term.num_args())]
-                self.st.set_list_term(base.loc, z3.Concat(z3.Unit(self.term_of(v, c.kind)), *rest))
+            if z3.is_int_value(si) and si.as_long() == 0:
+                if not self.branch(n > 0):
+                    self.raise_('IndexError')
+                h, T = self.head_split(c.term, c.kind)
+                self.st.set_list_term(base.loc, z3.Concat(z3.Unit(self.term_of(v, c.kind)), T))
                 return
             for (ht, hi, hp, he, hs) in self.st.ghost.get('_index_hints', []):
                 # the contract's pre-state names the split  term == P ++ [old] ++ S  with len(P) == i
@@ -998,6 +1014,11 @@ class Interp:
             if self.spec_mode:
                 return k.wrap(t[z3.If(i < 0, n + i, i)])
             si = z3.simplify(i)
+            if z3.is_int_value(si) and si.as_long() == 0:
+                if not self.branch(n > 0):
+                    self.raise_('IndexError')
+                h, T = self.head_split(t, k)
+                return k.wrap(h)
             if z3.is_int_value(si) and si.as_long() < 0:
                 off = -si.as_long()
                 if not self.branch(n >= off):
@@ -1181,7 +1202,7 @@ class Interp:
             if isinstance(op, ast.Mult):
                 return W(x * y)
             if isinstance(op, ast.Div):
-                if getattr(self, 'total_division', False):
+                if getattr(self, 'total_division', False) and (isinstance(a, VReal) or isinstance(b, VReal)):
                     return W(x / y)      # numpy/pandas scalars: division by zero yields nan/inf, it does not raise
                 if not self.branch(y != 0):
                     self.raise_('ZeroDivisionError')
@@ -1604,11 +1625,11 @@ class Interp:
                             self.st.set_list_term(recv.loc, z3.Concat(hp, hs))
                             return c.kind.wrap(he)
                     raise Unsupported('pop(i)')
-            h = z3.Const(sym.fresh_name('hd'), c.kind.sort)
-            tl = z3.Const(sym.fresh_name('tl'), c.term.sort())
             if first:
-                self.st.assume(c.term == z3.Concat(z3.Unit(h), tl))
+                h, tl = self.head_split(c.term, c.kind)
             else:
+                h = z3.Const(sym.fresh_name('hd'), c.kind.sort)
+                tl = z3.Const(sym.fresh_name('tl'), c.term.sort())
                 self.st.assume(c.term == z3.Concat(tl, z3.Unit(h)))
             self.st.set_list_term(recv.loc, tl)
             return c.kind.wrap(h)
